@@ -304,12 +304,13 @@ pub const REAL: &[&str] = &[
     "ragc-cli create driver (create_archive)",
     "ragc-core: StreamingQueueCompressor, worker threads, MemoryBoundedQueue, splitters, segmentation, LZ-diff, segment compression, GenomeIO/MultiFileIterator, Decompressor",
     "ragc-common: Archive, CollectionV3, varint",
-    "zstd, flate2, rayon (result-deterministic; interleaving not owned by the simulator)",
+    "zstd, flate2; rdst radix sort of u64 k-mers (uses the real rayon pool internally for large inputs: result is a sorted vector of integers)",
 ];
 pub const STUB: &[&str] = &[
     "std::sync / std::thread -> shuttle under the harness scheduler",
     "std::fs::File -> SimFile on an in-memory SimDisk (prefix-durable, no reordering)",
     "polling sleeps -> logical clock + yield",
+    "rayon (par_iter/into_par_iter maps of ragc-core, ThreadPoolBuilder of the CLI) -> /verif/sim/shadow/rayon: pool of 1..8 shuttle tasks claiming items from an atomic counter, indexed collect; the harness scheduler decides who runs which item",
     "metadata zstd level knob = 1 (shipped 18/19) for speed",
 ];
 
